@@ -95,7 +95,9 @@ def get_info_modes(ctx):
         pref = os.path.join(tmp, 'reference.wowsreplay'); battle.write_replay(pref, 'wowsreplay', {'clientVersionFromXml': vs}, b''.join(frames))
         ref_hidden = digest_.canon(ReplayParser(pref, strict=True).get_info()['hidden'])
         for name, pkt, exc in faults:
-            mid = len(frames) // 2 if name != 'controller-raises-StopIteration' else 1
+            # (the controller fault goes right behind the packet that creates the own avatar, before any BattleLogic entity exists)
+            bpc = next(i for i, f in enumerate(frames) if struct.unpack_from('<I', f, 4)[0] == b.ids['BasePlayerCreate']) + 1
+            mid = len(frames) // 2 if name != 'controller-raises-StopIteration' else bpc
             stream = b''.join(frames[:mid]) + pkt + b''.join(frames[mid:])
             p = os.path.join(tmp, name + '.wowsreplay'); battle.write_replay(p, 'wowsreplay', {'clientVersionFromXml': vs}, stream)
             ctx.case(('get_info-fault', name), n=2)
